@@ -482,6 +482,7 @@ type ReplayFile struct {
 	Decisions []Decision       `json:"decisions"`
 	Actions   []string         `json:"actions"`
 	Observes  []string         `json:"observes"`
+	Threads   []string         `json:"threads,omitempty"`
 }
 
 func writeReplay(verif, id, entry string, v *Violation, n int, params map[string]int64) (string, error) {
@@ -490,7 +491,7 @@ func writeReplay(verif, id, entry string, v *Violation, n int, params map[string
 		return "", err
 	}
 	rf := ReplayFile{Property: id, Entry: entry, Label: v.Label, Msg: v.Msg, Signature: signatureOf(id, entry, v),
-		Params: params, Nondets: v.Nondets, Decisions: v.Decisions, Actions: v.Actions, Observes: v.Observes}
+		Params: params, Nondets: v.Nondets, Decisions: v.Decisions, Actions: v.Actions, Observes: v.Observes, Threads: v.Threads}
 	b, _ := json.MarshalIndent(rf, "", " ")
 	p := filepath.Join(dir, fmt.Sprintf("%s-%s-%d.json", id, strings.TrimPrefix(entry, "verifHarness_"), n))
 	return p, os.WriteFile(p, b, 0o644)
